@@ -277,6 +277,218 @@ func quoteList(xs []string) string {
 
 var sections []func()
 
+// ---------------------------------------------------------------------------
+// guard tables (C19): which RPC handlers / web routes authenticate before touching data
+// ---------------------------------------------------------------------------
+
+func selectorPath(e ast.Expr) string {
+	switch x := e.(type) {
+	case *ast.Ident:
+		return x.Name
+	case *ast.SelectorExpr:
+		return selectorPath(x.X) + "." + x.Sel.Name
+	}
+	return "?"
+}
+
+// callsIn returns the dotted paths of all calls in n, in source order, with their positions.
+func callsIn(n ast.Node) (paths []string, poss []token.Pos) {
+	ast.Inspect(n, func(m ast.Node) bool {
+		if c, ok := m.(*ast.CallExpr); ok {
+			paths = append(paths, selectorPath(c.Fun))
+			poss = append(poss, c.Pos())
+		}
+		return true
+	})
+	return
+}
+
+func returnsInBody(b *ast.BlockStmt) bool {
+	for _, st := range b.List {
+		if _, ok := st.(*ast.ReturnStmt); ok {
+			return true
+		}
+	}
+	return false
+}
+
+// guardedBy reports whether the function body starts by calling `guard` and returning when it
+// fails, before any call whose path starts with one of `sensitive`.
+func guardedBy(body *ast.BlockStmt, guard string, negated bool, sensitive []string) bool {
+	if len(body.List) == 0 {
+		return false
+	}
+	checkIf := func(ifs *ast.IfStmt) bool { return returnsInBody(ifs.Body) }
+	first := body.List[0]
+	ok := false
+	switch st := first.(type) {
+	case *ast.IfStmt:
+		paths, _ := callsIn(st.Cond)
+		if st.Init != nil {
+			p2, _ := callsIn(st.Init)
+			paths = append(paths, p2...)
+		}
+		for _, p := range paths {
+			if p == guard {
+				ok = checkIf(st)
+			}
+		}
+	case *ast.AssignStmt:
+		paths, _ := callsIn(st)
+		for _, p := range paths {
+			if p == guard && len(body.List) > 1 {
+				if ifs, isIf := body.List[1].(*ast.IfStmt); isIf {
+					ok = checkIf(ifs)
+				}
+			}
+		}
+	}
+	return ok
+}
+
+func quoteStrs(xs []string) string { return "[" + quoteList(xs) + "]" }
+
+func guardTables() {
+	out.WriteString("\n(* ---- guard tables: rpc/server/rpc_server.go and web/*.go ---- *)\n")
+	// RPC handlers
+	f := parse("rpc/server/rpc_server.go")
+	var rows []string
+	for _, d := range f.Decls {
+		fd, ok := d.(*ast.FuncDecl)
+		if !ok || fd.Recv == nil || len(fd.Recv.List) != 1 {
+			continue
+		}
+		star, ok := fd.Recv.List[0].Type.(*ast.StarExpr)
+		if !ok {
+			continue
+		}
+		if id, ok := star.X.(*ast.Ident); !ok || id.Name != "server" {
+			continue
+		}
+		if !ast.IsExported(fd.Name.Name) {
+			continue
+		}
+		paths, _ := callsIn(fd.Body)
+		var dbm []string
+		seen := map[string]bool{}
+		for _, p := range paths {
+			if strings.HasPrefix(p, "s.db.") && !seen[p] {
+				seen[p] = true
+				dbm = append(dbm, strings.TrimPrefix(p, "s.db."))
+			}
+		}
+		g := guardedBy(fd.Body, "s.authorize", false, nil)
+		rows = append(rows, fmt.Sprintf("(%s, (%v, %s))", strconv.Quote(fd.Name.Name), g, quoteStrs(dbm)))
+	}
+	fmt.Fprintf(&out, "Definition gen_rpc_handlers : list (string * (bool * list string)) := [%s].\n", strings.Join(rows, "; "))
+
+	// web handlers: methods of *handler in web/*.go
+	methods := map[string]*ast.FuncDecl{}
+	matches, _ := filepath.Glob(filepath.Join(*repo, "web", "*.go"))
+	sort.Strings(matches)
+	var configure *ast.FuncDecl
+	for _, m := range matches {
+		if strings.HasSuffix(m, "_test.go") {
+			continue
+		}
+		rel, _ := filepath.Rel(*repo, m)
+		wf := parse(rel)
+		for _, d := range wf.Decls {
+			fd, ok := d.(*ast.FuncDecl)
+			if !ok {
+				continue
+			}
+			if fd.Recv == nil && fd.Name.Name == "Configure" {
+				configure = fd
+			}
+			if fd.Recv != nil && len(fd.Recv.List) == 1 {
+				if star, ok := fd.Recv.List[0].Type.(*ast.StarExpr); ok {
+					if id, ok := star.X.(*ast.Ident); ok && id.Name == "handler" {
+						methods[fd.Name.Name] = fd
+					}
+				}
+			}
+		}
+	}
+	var guarded func(name string, depth int) bool
+	guarded = func(name string, depth int) bool {
+		fd := methods[name]
+		if fd == nil || depth > 4 || fd.Body == nil || len(fd.Body.List) == 0 {
+			return false
+		}
+		if guardedBy(fd.Body, "h.authenticate", true, nil) {
+			return true
+		}
+		// a handler that only delegates: its first statement is a call h.X(...)
+		if es, ok := fd.Body.List[0].(*ast.ExprStmt); ok {
+			if c, ok := es.X.(*ast.CallExpr); ok {
+				p := selectorPath(c.Fun)
+				if strings.HasPrefix(p, "h.") && strings.Count(p, ".") == 1 {
+					return guarded(strings.TrimPrefix(p, "h."), depth+1)
+				}
+			}
+		}
+		return false
+	}
+	var reaches func(name string, depth int, acc map[string]bool)
+	reaches = func(name string, depth int, acc map[string]bool) {
+		fd := methods[name]
+		if fd == nil || depth > 5 || fd.Body == nil {
+			return
+		}
+		paths, _ := callsIn(fd.Body)
+		for _, p := range paths {
+			if !strings.HasPrefix(p, "h.") || acc[p] {
+				continue
+			}
+			acc[p] = true
+			if strings.Count(p, ".") == 1 {
+				reaches(strings.TrimPrefix(p, "h."), depth+1, acc)
+			}
+		}
+	}
+	var routes []string
+	if configure != nil {
+		ast.Inspect(configure.Body, func(n ast.Node) bool {
+			c, ok := n.(*ast.CallExpr)
+			if !ok {
+				return true
+			}
+			sel, ok := c.Fun.(*ast.SelectorExpr)
+			if !ok || (sel.Sel.Name != "HandleFunc" && sel.Sel.Name != "HandlerFunc") || len(c.Args) == 0 {
+				return true
+			}
+			hsel, ok := c.Args[len(c.Args)-1].(*ast.SelectorExpr)
+			if !ok {
+				return true
+			}
+			path := "?"
+			if sel.Sel.Name == "HandleFunc" && len(c.Args) == 2 {
+				if l, ok := c.Args[0].(*ast.BasicLit); ok {
+					path, _ = strconv.Unquote(l.Value)
+				}
+			} else if inner, ok := sel.X.(*ast.CallExpr); ok && len(inner.Args) == 1 {
+				if l, ok := inner.Args[0].(*ast.BasicLit); ok {
+					path, _ = strconv.Unquote(l.Value)
+				}
+			}
+			name := hsel.Sel.Name
+			acc := map[string]bool{}
+			reaches(name, 0, acc)
+			var rs []string
+			for p := range acc {
+				rs = append(rs, p)
+			}
+			sort.Strings(rs)
+			routes = append(routes, fmt.Sprintf("(%s, (%s, (%v, %s)))", strconv.Quote(path), strconv.Quote(name), guarded(name, 0), quoteStrs(rs)))
+			return true
+		})
+	}
+	fmt.Fprintf(&out, "Definition gen_web_routes : list (string * (string * (bool * list string))) := [\n  %s].\n", strings.Join(routes, ";\n  "))
+}
+
+func init() { sections = append(sections, guardTables) }
+
 // constants of the flush protocol: `disallowRaw := rs.flushCount%10 == 9` in row_store.go
 func protocolConstants() {
 	out.WriteString("\n(* ---- protocol constants ---- *)\n")
